@@ -157,4 +157,28 @@ theorem construct_byhour_unreachable (a : Args) (l : List Int) (hf : a.freq = 4)
     rw [constructByset_error _ _ _ _ h]
   unfold construct; rw [hsp, this]; rfl
 
+theorem normBysetpos_ok (a : Args) (sp : Option (List Int)) (h : normBysetpos a = .ok sp) :
+    sp = a.bysetpos ∧ ∀ q ∈ a.bysetpos.getD [], q ≠ 0 := by
+  unfold normBysetpos at h
+  split at h
+  · rename_i hn; injection h with h; subst h; rw [hn]; exact ⟨rfl, by simp⟩
+  · rename_i l hl
+    split at h
+    · rename_i hv
+      injection h with h; subst h
+      rw [hl]
+      refine ⟨rfl, ?_⟩
+      intro q hq
+      simp only [Option.getD_some] at hq
+      unfold validBysetpos at hv
+      have := List.all_eq_true.mp hv q hq
+      intro h0; subst h0; simp at this
+    · cases h
+
+/-- the constructor keeps BYSETPOS as given, and accepts it only without a zero -/
+theorem construct_bysetpos (a : Args) (r : Rule) (h : construct a = .ok r) :
+    r.bysetpos = a.bysetpos ∧ ∀ q ∈ a.bysetpos.getD [], q ≠ 0 := by
+  obtain ⟨sp, bh, bm, bs, ts, h1, _, _, _, _, rfl⟩ := construct_ok a r h
+  exact normBysetpos_ok a sp h1
+
 end RRule
